@@ -406,14 +406,14 @@ PROPS["C08"] = dict(
     level="model_checking", exhaustive=False,
     stages=lambda tier, seed: [
         mc("matrix", "MC_C08", "MC_C08_%s.cfg" % tier),
-        mc("fresh", "MC_C08", "MC_C08_%s.cfg" % tier, expand=G.c08_fresh(1 if tier == "quick" else 12, every=9 if tier == "quick" else 1)),
+        mc("fresh", "MC_C08", "MC_C08_%s.cfg" % tier, expand=G.c08_fresh(1 if tier == "quick" else 4, every=9 if tier == "quick" else 2)),
     ],
     rule="from MC_C08: every fixture key (RSA 512..4096 incl. odd sizes, P-256/384/521, secp256k1, Ed25519, Ed448; "
          "oct 1..512 bytes) x private and public form x metadata (alg matching / none / unknown / foreign, kid, use "
          "sig/enc/other, key_ops subsets incl. unknown names) with the default encoding, and x integer encoding "
          "(fixed width, minimal, zero-padded by 1 and 3 bytes) x extra-member set (none, members of other key types, "
          "unknown members) with plain metadata; as a single JWK and inside a JWKS; and 'history' cells: each of five defective keys (point not on the curve, unknown curve, short coordinate, incomplete RSA private key, short OKP key) imported before a well-formed key of every type - in the same set and by an earlier call on the same thread. Stage 'fresh' repeats every 9th "
-         "(quick) / every (thorough, 12 times) cell with key material generated on the spot (OpenSSL keygen, fresh "
+         "(quick) / every 2nd (thorough, 4 times) cell with key material generated on the spot (OpenSSL keygen, fresh "
          "oct bytes). The driver exports with its own exporter, parses the item's PEM with OpenSSL and compares "
          "public and private components with the exported key. distinct = distinct scripts.",
     assumptions=ASSUME_COMMON + ["equality of key components (big numbers, octets) is computed by the driver's projection against the key it exported; TLC judges the projected record"],
